@@ -671,9 +671,9 @@ impl Hash for Value {
       #[cfg(feature = "i128")]
       Value::I128(x) => x.borrow().hash(state),
       #[cfg(feature = "f32")]
-      Value::F32(x)  => x.borrow().to_bits().hash(state),
+      Value::F32(x)  => { let v = *x.borrow(); (if v == 0.0 { 0.0f32 } else { v }).to_bits().hash(state) },
       #[cfg(feature = "f64")]
-      Value::F64(x)  => x.borrow().to_bits().hash(state),
+      Value::F64(x)  => { let v = *x.borrow(); (if v == 0.0 { 0.0f64 } else { v }).to_bits().hash(state) },
       #[cfg(feature = "complex")]
       Value::C64(x) => x.borrow().hash(state),
       #[cfg(any(feature = "bool", feature = "variable_define"))]
